@@ -77,7 +77,8 @@ func MonC01() *Mon {
 	who := map[uint32]int{}
 	tainted := map[uint32]bool{} // some honest acceptance at this height counted an invalid commit that arrived before the proposal (D1)
 	early := map[*Node]map[vt.H]bool{}
-	note := func(n *Node, p Payload) {
+	pend := map[*Node][]Payload{}
+	note := func(n *Node, p Payload, emb bool) {
 		if p.T != dbft.CommitType || n.D.Validators == nil || p.Ht < n.D.BlockIndex {
 			return
 		}
@@ -88,18 +89,30 @@ func MonC01() *Mon {
 		}
 		if _, ok := m[p.Hash()]; !ok {
 			m[p.Hash()] = !(p.Ht == n.D.BlockIndex && p.V == n.D.ViewNumber && n.D.RequestSentOrReceived())
+			if emb {
+				// a recovery message hands over its proposal before its commits: whether this one met a proposal is
+				// known when the call is over (inside the call a block can only be accepted with the proposal held)
+				m[p.Hash()] = false
+				pend[n] = append(pend[n], p)
+			}
 		}
 	}
 	return &Mon{Name: "C01",
 		BeforeCall: func(n *Node, c *Call) {
 			if c.Kind == CReceive {
-				note(n, c.P)
+				note(n, c.P, false)
 				if rm, ok := c.P.Body.(*vt.RecoveryMessage); ok {
 					for _, e := range rm.Embedded {
-						note(n, e)
+						note(n, e, true)
 					}
 				}
 			}
+		},
+		AfterCall: func(n *Node, c *Call) {
+			for _, p := range pend[n] {
+				early[n][p.Hash()] = !(p.Ht == n.D.BlockIndex && p.V == n.D.ViewNumber && n.D.RequestSentOrReceived())
+			}
+			pend[n] = nil
 		},
 		ProcessBlock: func(n *Node, b *vt.Block, err error) {
 			if err != nil || n.Faulty {
@@ -143,7 +156,9 @@ func MonC02() *Mon {
 	early := map[*Node]map[string]bool{}
 	initTip := map[*Node]uint32{}
 	initHash := map[*Node]vt.H{}
-	note := func(n *Node, p Payload) {
+	pend := map[*Node][]Payload{}
+	key := func(p Payload) string { return fmt.Sprintf("%d/%d/%s", p.Ht, p.T, p.Hash()) }
+	note := func(n *Node, p Payload, emb bool) {
 		if p.T != dbft.CommitType && p.T != dbft.PreCommitType {
 			return
 		}
@@ -161,6 +176,11 @@ func MonC02() *Mon {
 		}
 		holds := p.Ht == n.D.BlockIndex && p.V == n.D.ViewNumber && n.D.RequestSentOrReceived()
 		m[k] = !holds
+		if emb {
+			// (as in MonC01: a recovery message hands over its proposal first; judged when the call is over)
+			m[k] = false
+			pend[n] = append(pend[n], p)
+		}
 	}
 	return &Mon{Name: "C02",
 		BeforeCall: func(n *Node, c *Call) {
@@ -169,13 +189,19 @@ func MonC02() *Mon {
 				initTip[n], initHash[n] = n.Tip, n.TipHash
 			}
 			if c.Kind == CReceive {
-				note(n, c.P)
+				note(n, c.P, false)
 				if rm, ok := c.P.Body.(*vt.RecoveryMessage); ok {
 					for _, e := range rm.Embedded {
-						note(n, e)
+						note(n, e, true)
 					}
 				}
 			}
+		},
+		AfterCall: func(n *Node, c *Call) {
+			for _, p := range pend[n] {
+				early[n][key(p)] = !(p.Ht == n.D.BlockIndex && p.V == n.D.ViewNumber && n.D.RequestSentOrReceived())
+			}
+			pend[n] = nil
 		},
 		ProcessBlock: func(n *Node, b *vt.Block, err error) {
 			if n.Faulty {
